@@ -28,7 +28,7 @@ def cases(tier, seed):
     for k in range(n):
         r = random.Random("C09/%d/%s/%d" % (seed, tier, k))
         c = dict(dw=r.choice([32, 32, 64, 128]), wdepth=r.choice([2, 4, 16, 16]), rdepth=r.choice([2, 4, 16, 16]),
-                 base=r.choice([0, 0, 0x10000, 0x40000000]), rmw=bool(k % 3 == 2), cls=CLASSES[k % len(CLASSES)],
+                 base=r.choice([0, 0, 0x10000, 0x40000000, 0x400, 0x2000]), rmw=bool(k % 3 == 2), cls=CLASSES[k % len(CLASSES)],
                  nw=r.randint(8, 20), nr=r.randint(8, 20), ready_b=r.choice([1.0, 0.6, 0.2]), ready_r=r.choice([1.0, 0.6, 0.2]),
                  long_stall=r.choice([0, 0, 0.02]), gap=r.choice([0, 0, 3, 10]), cmd_ready_prob=r.choice([1.0, 0.7, 0.3]),
                  extra_lat=r.choice([(0, 0), (0, 8), (0, 30)]), stub_long=r.choice([0, 0, 0.01]), seed="C09/%d/%d" % (seed, k))
@@ -38,7 +38,7 @@ def cases(tier, seed):
     # the bridge on a port of the real crossbar + controller + reference DRAM
     for k in range(12 if tier == "quick" else 90):
         r = random.Random("C09/%d/%s/core/%d" % (seed, tier, k))
-        c = dict(core=True, dw=r.choice([32, 64]), wdepth=16, rdepth=r.choice([4, 16]), base=r.choice([0, 0x10000, 0x40000000]),
+        c = dict(core=True, dw=r.choice([32, 64]), wdepth=16, rdepth=r.choice([4, 16]), base=r.choice([0, 0x10000, 0x40000000, 0x2000]),
                  rmw=False, cls=CLASSES[k % len(CLASSES)], nw=r.randint(8, 14), nr=r.randint(8, 14), ready_b=r.choice([1.0, 0.6]),
                  ready_r=r.choice([1.0, 0.6, 0.2]), long_stall=0, gap=r.choice([0, 3, 10]), cmd_ready_prob=1.0, extra_lat=(0, 0),
                  stub_long=0, cmd_buffer_depth=r.choice([4, 8, 16]), refresh=(k % 6 != 5), seed="C09/%d/core/%d" % (seed, k))
@@ -61,7 +61,7 @@ def gen_burst(r, c, nb, hot):
     else:
         kind2 = kind
     nbytes = 1 << size
-    word = r.choice(hot) if r.random() < 0.7 else r.randrange(0, 1 << 8)
+    word = r.choice(hot) if r.random() < 0.7 else (r.randrange(0, 1 << 8) if r.random() < 0.5 else r.randrange(0, (1 << 12) - 64))
     if kind2 == "wrap":
         ln = r.choice([1, 3, 7, 15])
         addr = (word * nb // nbytes) * nbytes          # aligned to the transfer size
@@ -112,7 +112,8 @@ def run_case(c):
         store = Store(nb)
         stub = CoreStub([dut.port], store, r, cmd_ready_prob=c["cmd_ready_prob"], extra_lat=tuple(c["extra_lat"]), long_stall=c["stub_long"])
         mem_procs = [stub.process()]
-    hot = [r.randrange(0, 1 << 8) for _ in range(4)]
+    # hot words anywhere in the port's address range (every native address bit is exercised); bursts stay inside it
+    hot = [r.randrange(0, (1 << aw_native) - 64) for _ in range(4)]
     full_strb = (1 << nb) - 1
     writes, reads = [], []
     wrapped = 0
